@@ -28,7 +28,7 @@ def gen_query(rng, svcs):
     s = rng.choice(svcs)
     qs = []
     for _ in range(rng.choice([1, 1, 2, 3])):
-        kind = rng.choice(['ptr', 'ptr', 'srv', 'txt', 'a', 'any', 'enum'])
+        kind = rng.choice(['ptr', 'ptr', 'srv', 'txt', 'a', 'a', 'any', 'enum'])
         qu = rng.random() < 0.3
         if kind == 'ptr':
             qs.append((s['type'], 12, qu))
@@ -58,8 +58,24 @@ def gen_scenario(rng):
     return dict(svcs=svcs, victim=victim, mode=mode, queries=queries, loopback=rng.random() < 0.6,
                 handle=rng.choice(['same', 'same', 'fresh']),       # unregister with the registered object or with a freshly built equal one
                 update=rng.choice([None, None, None, 'victim', 'other']),   # an update_service (new object, new port and TXT) well before the queries
-                second=rng.choice([None, None, 400, 1500]) if len(svcs) > 1 and mode == 'unregister' else None,
+                second=rng.choice([None, 130, 400, 1500]) if len(svcs) > 1 and mode == 'unregister' else None,
                 mcast=[rng.choice([20, 70, 120]) for _ in range(40)], tcd=[rng.choice([400, 450, 500]) for _ in range(10)])
+
+
+def corpus():
+    """the schedules of the two repaired defects (repro/c08_resurrection.py, repro/c08_additional_resurrection.py)"""
+    v4, v6 = [bytes([10, 0, 0, 1])], [bytes([0xfe, 0x80] + [0] * 13 + [1])]
+    base = dict(weight=0, priority=0, text=b'', host_ttl=120, other_ttl=4500)
+    s0 = dict(base, type=T1, name='s0.' + T1, server='hs.local.', port=80, v4=v4, v6=v6)
+    s1 = dict(base, type=T1, name='s1.' + T1, server='hs.local.', port=81, v4=[], v6=v6)
+    q = dict(questions=[('hs.local.', 1, False), (T1, 12, False)], src='10.0.0.7', port=5353, tc=False)
+    common_ = dict(loopback=True, handle='same', update=None, mcast=[120] * 40, tcd=[400] * 10, mode='unregister')
+    return [
+        dict(common_, svcs=[dict(s0, server='h0.local.')], victim=0, queries=[(-310, dict(q, questions=[(T1, 12, False)])),
+                                                                             (-10, dict(q, src='10.0.0.8', questions=[(T1, 12, False), ('zz.local.', 1, False)]))],
+             second=None),
+        dict(common_, svcs=[s0, s1], victim=0, queries=[(-600, q), (-300, dict(q, src='10.0.0.8'))], second=400),
+    ]
 
 
 def build_query(q, qid):
@@ -195,9 +211,9 @@ def oracle(sc, res):
         if not with_host:
             for ms, dest, m in parsed:
                 if start <= ms <= end and not m.is_query():
-                    for r in m.answers():
-                        if r.ttl == 0 and ident(r) in host:
-                            return f"address/NSEC record of a host still used by another registered service was withdrawn at +{ms - tu}"
+                    zero = {ident(r) for r in m.answers() if r.ttl == 0}
+                    if all(w in zero for w in core) and any(h in zero for h in host):      # this service's own goodbye message
+                        return f"address/NSEC record of a host still used by another registered service was withdrawn at +{ms - tu}"
         # --- no resurrection: once the sequence has completed, none of those records is transmitted with a non-zero TTL ---
         for ms, dest, m in parsed:
             if ms > byes[2] and not m.is_query():
@@ -214,7 +230,7 @@ def run(ctx):
     ctx.count_obligations('Props/C08.v')
     rng = ctx.rng
     n = 300 if ctx.tier == 'quick' else 4000
-    scenarios = [gen_scenario(rng) for _ in range(n)]
+    scenarios = corpus() + [gen_scenario(rng) for _ in range(n)]
     for sc, res, why in c09.check_scenarios(ctx, scenarios, run_scenario, oracle, 'c08', ''):
         ctx.hist('mode:' + sc['mode'])
         ctx.hist('loopback' if sc['loopback'] else 'no-loopback')
